@@ -27,6 +27,7 @@ class Tokenizer:
         self._call_macro = False
         self._with_macro = False
         self._proc_macro = False
+        self._raw_origin: tuple[int, int] | None = None  # end of the comma in front of the next call-macro argument
         self._end_parens: Final = {
             ")": "(",
             "]": "[",
@@ -105,6 +106,8 @@ class Tokenizer:
 
     def consume_macro_params(self) -> TokenInfo:  # noqa: C901, PLR0912
         # loop until we get , or ) without consuming it
+        origin = self._raw_origin or self._tokens[-1].end  # where this argument's text begins: after the delimiter before it
+        self._raw_origin = None
         start: tuple[int, int] | None = None
         end: tuple[int, int] | None = None
         paren_level: list[str] = []
@@ -133,14 +136,17 @@ class Tokenizer:
                     break
 
                 if tok.is_exact_type(","):
+                    self._raw_origin = tok.end
                     break
+            gap = self._between(end or origin, tok.start)
             if start is None:
-                start = tok.start
+                start = (end or origin) if gap else tok.start
                 line = tok.line
-                string = tok.string
-            else:
-                string += self._between(end, tok.start) + tok.string
+            string += gap + tok.string
             end = tok.end
+        if tok.type != Token.ENDMARKER and (gap := self._between(end or origin, tok.start)):
+            # a backslash-newline right in front of the delimiter
+            start, end, string = start or origin, tok.start, string + gap
 
         if (not string) and self._stack:
             # empty params
@@ -154,6 +160,7 @@ class Tokenizer:
 
     def consume_proc_macro_params(self) -> TokenInfo:
         """Raw text after ``cmd!``: everything up to the bracket that closes the subprocess (handed back unconsumed)."""
+        origin = self._tokens[-1].end  # the end of the ``!``
         start: tuple[int, int] | None = None
         end: tuple[int, int] | None = None
         paren_level: list[str] = []
@@ -173,11 +180,14 @@ class Tokenizer:
                 if paren_level[-1] != self._end_parens[tok.string]:
                     raise self._syntax_error(f"Unmatched closing paren {tok.string} at {tok.start}", tok)
                 paren_level.pop()
+            gap = self._between(end or origin, tok.start)
             if start is None:
-                start = tok.start
+                start = (end or origin) if gap else tok.start
                 line = tok.line
-            string += self._between(end, tok.start) + tok.string
+            string += gap + tok.string
             end = tok.end
+        if closes and (gap := self._between(end or origin, tok.start)):
+            start, end, string = start or origin, tok.start, string + gap
 
         if start is None or end is None:  # nothing after the ``!``
             return self._stack.pop()
